@@ -4,7 +4,8 @@
    section as C07 (Model/Adjoint.v): K any field of characteristic <> 2 with an
    involutive automorphism conj; finite index lists; no limits. *)
 From Coq Require Import ZArith List Bool Field.
-From V Require Import Base.FieldSig Base.Sums Model.Adjoint Proofs.Adjoint.
+From V Require Import Base.FieldSig Base.Sums Base.Arr Model.FIT Gen.MapsVol.
+From V Require Import Model.Adjoint Proofs.Adjoint Proofs.AdjointConcrete.
 Import ListNotations.
 
 Section C08.
@@ -87,6 +88,18 @@ Section C08.
     exact (jtvec_weighted_residual_source Fth conj Dt s p fin w r i).
   Qed.
 
+  (* 2b. several source-frequency pairs, each with ITS OWN computational grid
+     and transpose: if the adjoint identity holds per pair (theorem 2, with
+     g x = VT_x (grad e_x b_x)), it holds for the survey with the per-pair
+     contributions ACCUMULATED on the model grid and the chain factor applied
+     once afterwards -- the order of Simulation.gradient. *)
+  Theorem jt_adjoint_sum {X} (Xs : list X) (S : X -> K) (g : X -> IM -> K) (c v : IM -> K) :
+    (forall x, In x Xs -> re conj (S x) = dotM M (fun m => c m * g x m)%F v) ->
+    re conj (sum Xs S) = dotM M (fun m => c m * sum Xs (fun x => g x m))%F v.
+  Proof.
+    exact (adjoint_sum Fth two_nz conj conj_add M Xs S g c v).
+  Qed.
+
   (* the system matrix is symmetric (used by both directions) *)
   Theorem system_matrix_symmetric sig u v :
     dotE E (Aop K0 Av s sig u) v = dotE E u (Aop K0 Av s sig v).
@@ -95,5 +108,36 @@ End C08.
 
 Print Assumptions jvec_is_derivative_exact.
 Print Assumptions jt_adjoint.
+Print Assumptions jt_adjoint_sum.
 Print Assumptions jtvec_of_weighted_residual_is_gradient.
 Print Assumptions system_matrix_symmetric.
+
+(* 5. maps._interp_volume_average_adj ACCUMULATES: with P given by its non-zero
+   entries (third party), entry (i,j,k) of the result is the old entry plus the
+   sum over the entries that target (i,j,k) of weight * nval(source cell); two
+   successive calls add both contributions to the running total. *)
+Section C08volavg.
+  Context {K : Type} {O : FOps K}.
+  Hypothesis Fth : field_theory F0 F1 Fadd Fmul Fsub Fopp Fdiv Finv (@eq K).
+  Hypothesis two_nz : (1 + 1)%F <> 0%F.
+  Notation A3 := (Z -> Z -> Z -> K).
+  Local Open Scope Z_scope.
+
+  Theorem vol_avg_adjoint_accumulates (T : list (cell3 * cell3 * K)) (nval oval : A3) i j k :
+    vt_add T nval oval i j k
+    = (oval i j k
+       + sum T (fun t => if ((i =? fst (fst (fst (fst t)))) && (j =? snd (fst (fst (fst t))))
+                             && (k =? snd (fst (fst t))))%bool
+                         then snd t * nval (fst (fst (snd (fst t)))) (snd (fst (snd (fst t))))
+                                         (snd (snd (fst t)))
+                         else 0))%F.
+  Proof. exact (vt_add_spec Fth T nval oval i j k). Qed.
+
+  Theorem vol_avg_adjoint_twice (T1 T2 : list (cell3 * cell3 * K)) (n1 n2 oval : A3) i j k :
+    vt_add T2 n2 (vt_add T1 n1 oval) i j k
+    = (oval i j k + (vt_add T1 n1 zero3 i j k + vt_add T2 n2 zero3 i j k))%F.
+  Proof. exact (vt_add_twice Fth T1 T2 n1 n2 oval i j k). Qed.
+End C08volavg.
+
+Print Assumptions vol_avg_adjoint_accumulates.
+Print Assumptions vol_avg_adjoint_twice.
